@@ -1,5 +1,5 @@
 SPECIFICATION Spec
-CONSTANTS Mode = "res"  MaxSteps = 4  NK = 1  CapK = 1
+CONSTANTS Mode = "res"  MaxSteps = 3  NK = 1  CapK = 1
 INVARIANTS Agree GhostTracks
 VIEW View
 CHECK_DEADLOCK FALSE
